@@ -258,39 +258,30 @@ def worker(payload):
         res.update(idx=idx, wall=round(time.time() - t0, 1))
         sys.stdout.write("@@ITEM@@" + json.dumps(res) + "\n")
         sys.stdout.flush()
+        lv.lib()["jax"].clear_caches()   # one executable per flow: keep the process small
     return dict(done=True)
 
 
 class Guarded:
-    """worker process + reader thread; kill BY PID on timeout; partial results survive."""
+    """worker process (reader threads drain its pipes from the start); kill BY PID on timeout; partial results survive."""
 
     def __init__(self, payload):
         self.p = ds.start_guarded("c04", "worker", payload)
-        self.lines = []
-        self.err = []
-        self.t = threading.Thread(target=self._read, daemon=True)
-        self.t.start()
-        self.te = threading.Thread(target=lambda: self.err.append(self.p.stderr.read()), daemon=True)
-        self.te.start()
-
-    def _read(self):
-        for line in self.p.stdout:
-            self.lines.append(line)
 
     def finish(self, deadline):
-        self.t.join(max(1.0, deadline - time.time()))
-        timed_out = self.t.is_alive()
+        self.p.t_out.join(max(1.0, deadline - time.time()))
+        timed_out = self.p.t_out.is_alive()
         if timed_out:
             self.p.kill()
-            self.t.join(10)
+            self.p.t_out.join(10)
         items, started = {}, set()
-        for line in self.lines:
+        for line in list(self.p.out_lines):
             if line.startswith("@@ITEM@@"):
                 r = json.loads(line[len("@@ITEM@@"):])
                 items[r["idx"]] = r
             elif line.startswith("@@START@@"):
                 started.add(json.loads(line[len("@@START@@"):])["idx"])
-        return items, started, timed_out, ("".join(self.err))[-800:]
+        return items, started, timed_out, ("".join(self.p.err_chunks))[-800:]
 
 
 # ------------------------------------------------------------------ item lists
@@ -343,16 +334,20 @@ def make_items(ctx):
             for cond in (None, 2):
                 for inv in (True, False):
                     if n != "coupling":
-                        for rep in range(2):
+                        for rep in range(4):
                             main_items.append(flow_item(n, 1, cond, inv, rng))
-                    main_items.append(flow_item(n, 2, cond, inv, rng, scale=0.2))
-        for i in range(6):
+                    for rep in range(2):
+                        main_items.append(flow_item(n, 2, cond, inv, rng, scale=0.2))
+        for i in range(16):
             main_items.append(spec_item(rng, 1, [(), (1,)][i % 2]))
-        main_items.append(spec_item(rng, 2, (2,)))
-        for cond in (None, 2):
-            for inv in (True, False):
-                bnaf_items.append(flow_item("bnaf", 1, cond, inv, rng))
+        for i in range(4):
+            main_items.append(spec_item(rng, 2, (2,)))
         bnaf_items.append(flow_item("bnaf", 2, None, True, rng, scale=0.2, ks=False))
+        bnaf_items.append(flow_item("bnaf", 2, 2, True, rng, scale=0.2, ks=False))
+        for rep in range(2):
+            for cond in (None, 2):
+                for inv in (True, False):
+                    bnaf_items.append(flow_item("bnaf", 1, cond, inv, rng))
     return main_items, bnaf_items
 
 
@@ -447,25 +442,40 @@ def run(ctx):
     gb = Guarded(dict(items=bnaf_items))
     unit_tie(ctx)                                     # runs beside the two workers
     for g, items, label in ((gm, main_items, "flows"), (gb, bnaf_items, "bnaf")):
-        got, started, timed_out, err = g.finish(t0 + budget)
-        for idx, item in enumerate(items):
-            if idx in got:
-                judge(ctx, uq, uk, item, got[idx])
-                if got[idx].get("partial") and timed_out:
-                    ctx.violation(sig=f"sampler:{item.get('flow', 'hand-built')}:timeout", what=f"sampling {NKS} points from {item.get('flow', 'hand-built')} dim {item['dim']} "
-                                  f"invert={item.get('invert')} did not return within the wall-clock guard (the density integrated to {got[idx]['integral']:.6f}): "
-                                  "the numerically inverted direction does not terminate", case=item, found_input=False, unit=uk.name,
-                                  broken="KS oracle (guarded evaluation)")
-            elif idx in started and timed_out:
-                ctx.violation(sig=f"quadrature:{item.get('flow', 'hand-built')}:timeout", what=f"evaluation of {item.get('flow', 'hand-built')} dim {item['dim']} "
-                              f"invert={item.get('invert')} did not return within the wall-clock guard ({budget}s for the whole list): a numerically inverted "
-                              "direction that never terminates (the layer is not onto R?)", case=item, found_input=False, unit=uq.name,
-                              broken="quadrature / KS oracle (guarded evaluation)")
-            elif timed_out:
-                ctx.notes.append(f"{label}: item {idx} not reached before the wall-clock limit")
-            else:
-                ctx.violation(sig=f"quadrature:{label}:worker-crash", what=f"worker ended without a result for item {idx}: {err[-300:]}", case=item,
-                              found_input=False, unit=uq.name, broken="quadrature oracle (worker)")
+        todo = list(range(len(items)))                # indices into `items` still without a result
+        for attempt in range(4):
+            got, started, timed_out, err = g.finish(t0 + budget)
+            sub = todo                                # the worker numbered its items 0..len(todo)-1
+            missing = []
+            for j, idx in enumerate(sub):
+                item = items[idx]
+                if j in got:
+                    judge(ctx, uq, uk, item, got[j])
+                    if got[j].get("partial") and timed_out:
+                        ctx.violation(sig=f"sampler:{item.get('flow', 'hand-built')}:timeout", what=f"sampling {NKS} points from {item.get('flow', 'hand-built')} dim {item['dim']} "
+                                      f"invert={item.get('invert')} did not return within the wall-clock guard (the density integrated to {got[j]['integral']:.6f}): "
+                                      "the numerically inverted direction does not terminate", case=item, found_input=False, unit=uk.name,
+                                      broken="KS oracle (guarded evaluation)")
+                    elif got[j].get("partial"):
+                        missing.append(idx)           # the process died during the sampling part: run the item again
+                elif j in started and timed_out:
+                    ctx.violation(sig=f"quadrature:{item.get('flow', 'hand-built')}:timeout", what=f"evaluation of {item.get('flow', 'hand-built')} dim {item['dim']} "
+                                  f"invert={item.get('invert')} did not return within the wall-clock guard ({budget}s for the whole list): a numerically inverted "
+                                  "direction that never terminates (the layer is not onto R?)", case=item, found_input=False, unit=uq.name,
+                                  broken="quadrature / KS oracle (guarded evaluation)")
+                elif timed_out:
+                    ctx.notes.append(f"{label}: item {idx} not reached before the wall-clock limit")
+                else:
+                    missing.append(idx)
+            if not missing or timed_out:
+                break
+            if attempt == 3:
+                ctx.violation(sig=f"quadrature:{label}:worker-crash", what=f"worker processes ended 4 times without a result for items {missing[:5]}: {err[-300:]}",
+                              case=items[missing[0]], found_input=False, unit=uq.name, broken="quadrature oracle (worker)")
+                break
+            ctx.notes.append(f"{label}: worker ended early ({err[-80:].strip()!r}); restarted for {len(missing)} items")
+            todo = missing
+            g = Guarded(dict(items=[items[i] for i in todo]))
     ctx.assumptions += [
         "jr.normal draws from the standard normal law (the KS test compares the sampler with the density log_prob reports, not with an external reference)",
         "quadrature calibrated on the unchanged tree (design_probes/py_quad.py): 1-D |I-1| <= 1.1e-3, 2-D <= 7e-3; thresholds 3e-3 / 2e-2",
